@@ -799,7 +799,7 @@ def _stress(case: dict, env: core.Env) -> None:
     barrier = threading.Barrier(n)
     order: list[int] = []
     olock = threading.Lock()
-    mode = r.choice(["same", "same", "mixed", "db-ready", "db-ready"])
+    mode = r.choice(["same", "mixed", "db-ready", "db-ready"])
     if mode == "db-ready":
         # the database is there already (an earlier connect has finished with it); the sessions then arrive together, several
         # times over, each time asking for a schema that does not exist yet
@@ -816,7 +816,7 @@ def _stress(case: dict, env: core.Env) -> None:
             barrier.wait(timeout=WATCHDOG)
             db = "stressdb" if mode in ("same", "db-ready") or i % 2 == 0 else f"stress{i}"
             if mode == "db-ready":
-                for wave in range(4):
+                for wave in range(6):
                     cw = fs.connect(db, f"wave{wave}")
                     got = cw.cursor().execute("SELECT CURRENT_SCHEMA()").fetchall()
                     assert got == [(f"WAVE{wave}",)], f"thread {i} wave {wave}: current schema {got}"
